@@ -9,11 +9,28 @@ OBSERVED VALUE and on the EPOCH:
     Q(s1, s2, k, track) = QT[k][label s1][label s2]
     P(s, y, k, track)   = PT[k][label s][code(y)]        code = digits of the fields of y in base R, mod YD
 so that the same (state, observed value) pair meets different likelihoods at different epochs.
-Cells are canonicalised as a number (float) or ["s", label] for a state object."""
-import math, copy, itertools
+Cells are canonicalised as a number (float) or ["s", label] for a state object. The label of a state is read from
+its VALUE (for positions: from the coordinates), never from its identity: a state object whose value has changed
+reads as another label or as no state at all.
 
-SFLAVS = ["int", "str", "tuple", "list", "obj", "objnh", "ident", "coords"]
-HASHABLE = {"int", "str", "tuple", "obj", "coords"}
+What S returns and what it is made of (per model):
+    cont[k]  the container type of epoch k: list, tuple, numpy array, a user class with __len__/__getitem__, deque,
+             range (flavour int, consecutive labels) — estimate() only uses len() and [i] — or something without a
+             length (a generator, None, a bare state): TypeError, outside the statement
+    share    "fresh": new objects at every call of S; "const": one state object per label for the whole session and
+             one container per epoch (module-level constants); "same": moreover the SAME container object at every
+             epoch whose candidates are those of epoch 0
+Flavour "trackpos": the states are the position OBJECTS of track 0 (label l = the position of epoch l, coordinates
+(l, -l-1, 0)); other epochs of the decoded track are its candidates. x, y, z may be observation names (the
+coordinates of whatever object the position is when the call is made)."""
+import math, copy, itertools, collections
+
+SFLAVS = ["int", "str", "tuple", "list", "obj", "objnh", "ident", "coords", "trackpos"]
+HASHABLE = {"int", "str", "tuple", "obj", "coords", "trackpos"}
+POSFLAVS = ("coords", "trackpos")       # states that are positions: the modes 3, 4, 5 are generated for them
+SIZED = ["list", "tuple", "nparray", "userseq", "deque", "range"]
+UNSIZED = ["gen", "none", "bare"]
+NOLEN = {"int", "obj", "objnh", "ident", "coords", "trackpos"}    # flavours whose state objects have no len()
 RESERVED = ["x", "y", "z", "t", "timestamp", "idx"]
 CAP = 2500          # largest number of candidate sequences the oracle enumerates
 TOL = 1e-9
@@ -57,6 +74,68 @@ class StId:
         return "StId(%d)" % self.lab
 
 
+class UserSeq:
+    """a sequence of the user's own: nothing but __len__ and __getitem__"""
+    def __init__(self, items):
+        self._items = tuple(items)
+
+    def __len__(self):
+        return len(self._items)
+
+    def __getitem__(self, i):
+        return self._items[i.__index__()]
+
+
+def make_container(kind, objs, labs, flname):
+    """what S hands to estimate() for one epoch"""
+    if kind == "list":
+        return list(objs)
+    if kind == "tuple":
+        return tuple(objs)
+    if kind == "nparray":
+        import numpy as np
+        if flname == "int":
+            return np.array(labs, dtype=np.int64)
+        a = np.empty(len(objs), dtype=object)
+        for i, o in enumerate(objs):
+            a[i] = o
+        return a
+    if kind == "userseq":
+        return UserSeq(objs)
+    if kind == "deque":
+        return collections.deque(objs)
+    if kind == "range":
+        if flname == "int" and labs and labs == list(range(labs[0], labs[0] + len(labs))):
+            return range(labs[0], labs[0] + len(labs))
+        return tuple(objs)
+    if kind == "none":
+        return None
+    if kind == "bare" and len(objs) == 1 and flname in NOLEN:
+        return objs[0]
+    if kind in UNSIZED:
+        return (o for o in objs)
+    raise ValueError(kind)
+
+
+def conts_of(m, N):
+    c = m.get("cont")
+    if c is None:
+        return ["list"] * N
+    if isinstance(c, str):
+        return [c] * N
+    return list(c)
+
+
+def st_coords(sflav, lab):
+    """coordinates of the state object of a label when states are positions"""
+    return (float(lab), -float(lab) - 1.0, 0.0) if sflav == "trackpos" else (float(lab), 0.0, 0.0)
+
+
+def pos0_coords(sflav, L, k):
+    """coordinates of the position of epoch k of track 0 when the session starts"""
+    return st_coords(sflav, k) if (sflav == "trackpos" and k < L) else (float(k), 0.0, 0.0)
+
+
 def make_coords_state_class(base):
     """states that are positions: a subclass of ENUCoords carrying its label (named ENUCoords so that
     Track.getSRID(), which parses the class name of the first position, still says ENU after a mode-3/4/5 decoding)"""
@@ -82,8 +161,8 @@ def digit_num(v, R):
 
 class Flavour:
     """how labels are carried by Python objects in one session"""
-    def __init__(self, name, coords_base, coords_state):
-        self.name, self.base, self.cstate = name, coords_base, coords_state
+    def __init__(self, name, coords_base, coords_state, pool=None):
+        self.name, self.base, self.cstate, self.pool = name, coords_base, coords_state, pool
 
     def make(self, lab):
         n = self.name
@@ -103,6 +182,8 @@ class Flavour:
             return StId(lab)
         if n == "coords":
             return self.cstate(lab)
+        if n == "trackpos":
+            return self.pool[lab]          # the position object itself, never a copy
         raise ValueError(n)
 
     def label(self, v):
@@ -120,14 +201,31 @@ class Flavour:
             return v.lab if isinstance(v, StNH) else None
         if n == "ident":
             return v.lab if isinstance(v, StId) else None
-        if n == "coords":
-            return v.lab if isinstance(v, self.cstate) else None
+        if n == "coords":       # by value: an object whose coordinates were written is no longer the state it was
+            if isinstance(v, self.cstate) and (v.E, v.N, v.U) == st_coords("coords", v.lab):
+                return v.lab
+            return None
+        if n == "trackpos":
+            if isinstance(v, self.base) and is_num(v.E) and v.E >= 0 and v.E == math.floor(v.E) \
+                    and (v.E, v.N, v.U) == st_coords("trackpos", int(v.E)):
+                return int(v.E)
+            return None
         return None
 
     def state_label(self, v):
         """label of whatever S returned (flavour int included)"""
         if self.name == "int":
-            return v if isinstance(v, int) and not isinstance(v, bool) else None
+            if isinstance(v, bool):
+                return None
+            if isinstance(v, int):
+                return v
+            try:
+                import numpy as np
+                if isinstance(v, np.integer):      # an element of a numpy array of candidates
+                    return int(v)
+            except Exception:
+                pass
+            return None
         return self.label(v)
 
     def canon(self, v):
@@ -146,8 +244,11 @@ class Flavour:
             return float(v)
         return ["?", repr(v)[:40]]
 
-    def digits(self, item, R):
-        """digits of one field of the observation handed to P"""
+    def digits(self, item, R, built=False):
+        """digits of one field of the observation handed to P; `built`: the field is the Coords that __getObs made of
+        the first two / three values (three digits, also when its coordinates happen to be those of a state)"""
+        if built and isinstance(item, self.base):
+            return self.digits(item.E, R)[:1] + self.digits(item.N, R)[:1] + self.digits(item.U, R)[:1]
         lab = self.label(item)
         if lab is not None:
             return [lab % R]
@@ -163,11 +264,12 @@ class Flavour:
             pass
         return [0]
 
-    def code(self, y, R, YD):
+    def code(self, y, R, YD, posfirst=False):
+        """`posfirst`: the call is in mode 1, 2, 3 or 4, the first field is the position made by __getObs"""
         fields = y if isinstance(y, list) else [y]
         ds = []
-        for f in fields:
-            ds += self.digits(f, R)
+        for i, f in enumerate(fields):
+            ds += self.digits(f, R, built=(posfirst and i == 0))
         return sum(d * R ** i for i, d in enumerate(ds)) % YD
 
 
@@ -207,6 +309,12 @@ def valid(case):
                 return False
             if len(m["Q"]) != N - 1 or any(len(r) != L or any(len(c) != L for c in r) for r in m["Q"]):
                 return False
+            if len(conts_of(m, N)) != N or any(c not in SIZED + UNSIZED for c in conts_of(m, N)):
+                return False
+            if m.get("share", "fresh") not in ("fresh", "const", "same"):
+                return False
+        if case["sflav"] not in SFLAVS:
+            return False
         names = [f[0] for f in case["feats"]]
         if len(set(names)) != len(names) or any(n in RESERVED for n in names) or any(len(f[1]) != N for f in case["feats"]):
             return False
@@ -217,13 +325,13 @@ def valid(case):
                 if st["h"] != no or any(st[k] >= nm for k in ("mS", "mQ", "mP")):
                     return False
                 no += 1
-            elif op in ("log", "setS", "setQ", "setP"):
-                if st["h"] >= no or (op != "log" and st["m"] >= nm):
+            elif op in ("log", "stat", "setS", "setQ", "setP"):
+                if st["h"] >= no or (op not in ("log", "stat") and st["m"] >= nm):
                     return False
             elif op == "est":
                 if st["h"] >= no or st["t"] >= nt:
                     return False
-                if any(n in ("x", "y", "z", "t", "timestamp") for n in st["obs"]):
+                if any(n in ("t", "timestamp") for n in st["obs"]):
                     return False
             elif op == "obs":
                 if st["t"] >= nt or not (0 <= st["k"] < N) or st["name"] in RESERVED:
@@ -251,10 +359,39 @@ class Runner:
         self.cstate = make_coords_state_class(ENU)
 
     def flavour(self, case):
-        return Flavour(case["sflav"], self.ENU, self.cstate)
+        pool = None
+        if case["sflav"] == "trackpos":
+            pool = [self.ENU(*st_coords("trackpos", l)) for l in range(case["L"])]
+        return Flavour(case["sflav"], self.ENU, self.cstate, pool)
+
+    @staticmethod
+    def boolform(case):
+        f = case.get("boolform", "bool")
+        if f == "int":
+            return int
+        if f == "npbool":
+            import numpy as np
+            return np.bool_
+        return bool
 
     def yval(self, case, c):
         return float(c) if case.get("yflav") == "float" else c
+
+    @staticmethod
+    def modified(fl, rets):
+        """what the call did to the containers and state objects S handed out: nothing, on correct code"""
+        out = []
+        for k, cont, objs_k, labs in rets:
+            if cont is not None and hasattr(cont, "__len__"):
+                now = [cont[i] for i in range(len(cont))]
+                if len(now) != len(objs_k) or (fl.name != "int" and any(a is not b for a, b in zip(now, objs_k))) \
+                        or (fl.name == "int" and [fl.state_label(a) for a in now] != labs):
+                    out.append("the container returned for epoch %d holds %r" % (k, now))
+                    continue
+            got = [fl.state_label(o) for o in objs_k]
+            if got != labs:
+                out.append("candidates of epoch %d (labels %s) read %s after the call" % (k, labs, got))
+        return out[:3]
 
     def read_col(self, fl, tr, name, N):
         if name not in tr.getListAnalyticalFeatures():
@@ -264,19 +401,42 @@ class Runner:
     def run(self, case):
         N, L, R, YD = case["N"], case["L"], case["R"], case["YD"]
         fl = self.flavour(case)
-        tr0 = self.Track([self.Obs(self.ENU(float(k), 0.0, 0.0), self.ObsTime.readUnixTime(60 * k)) for k in range(N)])
+        sflav = case["sflav"]
+        # flavour trackpos: the candidate states ARE the position objects of track 0 (epoch l carries the state of label l)
+        tr0 = self.Track([self.Obs(fl.pool[k] if (sflav == "trackpos" and k < L) else self.ENU(*pos0_coords(sflav, L, k)),
+                                   self.ObsTime.readUnixTime(60 * k)) for k in range(N)])
         for name, vals in case["feats"]:
             tr0.createAnalyticalFeature(name, [self.yval(case, c) for c in vals])
         tracks, objs, ests = [tr0], [], []
-        cur = {"track": None}
+        cur = {"track": None, "rets": []}
+        spool = {}            # share = const / same: one state object per label for the whole session
+
+        def shared_state(lab):
+            if lab not in spool:
+                spool[lab] = fl.make(lab)
+            return spool[lab]
 
         def functions(m):
             SL, PT, QT = m["S"], m["P"], m["Q"]
+            conts, share = conts_of(m, N), m.get("share", "fresh")
+            cache = {}
+
+            def build(k):
+                objs_k = [shared_state(lab) if share != "fresh" else fl.make(lab) for lab in SL[k]]
+                return make_container(conts[k], objs_k, list(SL[k]), sflav), objs_k
 
             def S(track, k):
                 if track is not cur["track"]:
                     raise LookupError("S called with another track")
-                return [fl.make(lab) for lab in SL[k]]
+                if share == "fresh" or conts[k] in UNSIZED:
+                    cont, objs_k = build(k)
+                else:
+                    key = 0 if (share == "same" and SL[k] == SL[0] and conts[k] == conts[0]) else k
+                    if key not in cache:
+                        cache[key] = build(key)
+                    cont, objs_k = cache[key]
+                cur["rets"].append((k, cont, objs_k, list(SL[k])))
+                return cont
 
             def Q(s1, s2, k, track):
                 if track is not cur["track"]:
@@ -292,9 +452,10 @@ class Runner:
                 a = fl.state_label(s)
                 if a is None or not (0 <= k < N):
                     raise LookupError("P called with %r at epoch %r" % (s, k))
-                return PT[k][a][fl.code(y, R, YD)]
+                return PT[k][a][fl.code(y, R, YD, cur.get("mode", 0) in (1, 2, 3, 4))]
             return S, Q, P
         funs = [functions(m) for m in case["models"]]
+        B = self.boolform(case)      # how the session writes its flags: True / 1 / numpy.bool_(True)
 
         for st in case["steps"]:
             op = st["op"]
@@ -304,14 +465,16 @@ class Runner:
                     h = self.dyn.HMM()
                     h.setStates(S); h.setTransitionModel(Q); h.setObservationModel(P)
                     if st["log"] or st.get("always_setlog"):
-                        h.setLog(st["log"])
+                        h.setLog(B(st["log"]))
                 elif st.get("via") == "ctor-pos":
-                    h = self.dyn.HMM(S, Q, P, st["log"])
+                    h = self.dyn.HMM(S, Q, P, B(st["log"]))
                 else:
-                    h = self.dyn.HMM(S, Q, P, log=st["log"], stationarity=bool(st.get("stat")))
+                    h = self.dyn.HMM(S, Q, P, log=B(st["log"]), stationarity=B(bool(st.get("stat"))))
                 objs.append(h)
             elif op == "log":
-                objs[st["h"]].setLog(st["log"])
+                objs[st["h"]].setLog(B(st["log"]))
+            elif op == "stat":          # declared, never read by estimate()
+                objs[st["h"]].setStationarity(B(st["b"]))
             elif op == "setS":
                 objs[st["h"]].setStates(funs[st["m"]][0])
             elif op == "setQ":
@@ -335,6 +498,11 @@ class Runner:
                     for name in st["obs"]:
                         if name == "idx":
                             row.append(float(k))
+                        elif name in ("x", "y", "z"):     # the coordinates of whatever object the position is now
+                            try:
+                                row.append(fl.canon(tr.getObsAnalyticalFeature(name, k)))
+                            except Exception as e:
+                                row.append(["?", type(e).__name__])
                         elif name in have:
                             row.append(fl.canon(tr.getObsAnalyticalFeature(name, k)))
                         else:
@@ -343,11 +511,13 @@ class Runner:
                 obsarg = st["obs"][0] if (len(st["obs"]) == 1 and st.get("obs_as_str")) else list(st["obs"])
                 kw = {}
                 if st.get("logarg") is not None:
-                    kw["log"] = st["logarg"]
+                    kw["log"] = B(st["logarg"])
                 if st.get("mode", 0) != 0 or st.get("mode_explicit"):
                     kw["mode"] = st.get("mode", 0)
                 kw["verbose"] = st.get("verbose", 0)
                 cur["track"] = tr
+                cur["mode"] = st.get("mode", 0)
+                cur["rets"] = []
                 status = "ok"
                 detail = ""
                 try:
@@ -358,7 +528,7 @@ class Runner:
                     from engine import err_kind
                     status, detail = err_kind(e), str(e)[:100]
                 cur["track"] = None
-                ests.append({"status": status, "detail": detail, "pre": pre,
+                ests.append({"status": status, "detail": detail, "pre": pre, "mut": self.modified(fl, cur["rets"]),
                              "inf": self.read_col(fl, tr, "hmm_inference", N),
                              "cost": self.read_col(fl, tr, "hmm_cost", N)})
             else:
@@ -382,7 +552,8 @@ def request(case, fbits, tok_list):
     feats = tok_list(("%s:%s" % (n, tok_list(fbits(c) for c in vals)) for n, vals in case["feats"]), "|")
     ms = []
     for m in case["models"]:
-        S = ";".join(("e" if not row else ",".join(map(str, row))) for row in m["S"])
+        S = ";".join(("u" if c in UNSIZED else "e" if not row else ",".join(map(str, row)))
+                     for row, c in zip(m["S"], conts_of(m, N)))
         Pf = tok_list(fbits(v) for r in m["P"] for c in r for v in c)
         Qf = tok_list(fbits(v) for r in m["Q"] for c in r for v in c)
         ms.append("%s/%s/%s" % (S, Pf, Qf))
@@ -391,6 +562,8 @@ def request(case, fbits, tok_list):
         op = st["op"]
         if op == "new":
             steps.append("new:%d:%d:%d:%d:%d" % (st["h"], int(st["log"]), st["mS"], st["mQ"], st["mP"]))
+        elif op == "stat":
+            pass                       # HMM.stationarity is not read on this path: not part of the model
         elif op == "log":
             steps.append("log:%d:%d" % (st["h"], int(st["log"])))
         elif op in ("setS", "setQ", "setP"):
@@ -404,7 +577,10 @@ def request(case, fbits, tok_list):
             steps.append("mk:%d:%s:%s" % (st["t"], st["name"], tok_list(fbits(c) for c in st["vals"])))
         elif op == "copy":
             steps.append("copy:%d" % st["t"])
-    return "C09.sess %d,%d,%d,%d %s %s %s" % (N, L, R, YD, feats, tok_list(ms, "@"), tok_list(steps, "|"))
+    sf = case["sflav"]
+    coords = "%s/%s" % (tok_list(fbits(c) for l in range(L) for c in st_coords(sf, l)),
+                        tok_list(fbits(c) for k in range(N) for c in pos0_coords(sf, L, k)))
+    return "C09.sess %d,%d,%d,%d %s %s %s %s" % (N, L, R, YD, feats, tok_list(ms, "@"), tok_list(steps, "|"), coords)
 
 
 def parse_reply(case, rep, bitsf, untok):
@@ -433,7 +609,10 @@ def parse_reply(case, rep, bitsf, untok):
             n, v = c.split(":")
             names.append(n)
             cd[n] = col(v)
-        tracks.append({"names": names, "cols": cd, "pos": [int(p) for p in untok(pos)]})
+        pl = [int(p) for p in untok(pos)]
+        if case["sflav"] == "trackpos":      # read by value: the own position of epoch k < L is the state of label k
+            pl = [k if (p == -1 and k < case["L"]) else p for k, p in enumerate(pl)]
+        tracks.append({"names": names, "cols": cd, "pos": pl})
     return {"est": ests, "tracks": tracks, "logs": [x == "1" for x in untok(o)]}
 
 
@@ -495,6 +674,8 @@ def in_statement(case, ctx, res):
     n = [len(r) for r in SL]
     if any(x == 0 for x in n) or math.prod(n) > CAP:
         return False                                  # an epoch without candidates: outside the quantifier
+    if any(c in UNSIZED for c in conts_of(case["models"][ctx["S"]], N)):
+        return False                                  # S did not return a collection of candidates
     if any(c is None for row in res["pre"] for c in row):
         return False                                  # an observation feature the track does not have
     if len(st["obs"]) < fields_needed(mode):
@@ -657,6 +838,8 @@ def compare(case, io, mo):
         return "number of estimate results: impl %d, model %d" % (len(io["est"]), len(mo["est"]))
     ctxs = est_contexts(case)
     for i, (a, b) in enumerate(zip(io["est"], mo["est"])):
+        if a.get("mut"):       # the model has no writer of a state object or of a container
+            return "estimate call %d modified what S returned: %s" % (i, "; ".join(a["mut"]))
         if a["status"] == b["status"] and cells_equal(a["inf"], b["inf"]) and cells_equal(a["cost"], b["cost"]):
             continue
         # another optimal sequence (tie-breaking is not part of the property): accepted, the rest of the history cannot be followed
@@ -712,13 +895,32 @@ def gen_model(rng, N, L, YD, kind, maxseq):
         Qt = [[list(c) for c in q0] for _ in range(N - 1)]
     else:
         Qt = [[[rng.choice(vals) for _ in range(L)] for _ in range(L)] for _ in range(N - 1)]
-    return {"S": S, "P": Pt, "Q": Qt, "kind": "lik" if kind in LIK_SETS else "log"}
+    m = {"S": S, "P": Pt, "Q": Qt, "kind": "lik" if kind in LIK_SETS else "log"}
+    # what S returns: the container type per epoch, and whether containers / state objects are shared between calls
+    r = rng.random()
+    if r < 0.60:
+        pass                                                   # lists (the key is left out)
+    elif r < 0.84:
+        m["cont"] = [rng.choice(SIZED[1:])] * N
+    elif r < 0.97:
+        m["cont"] = [rng.choice(SIZED) for _ in range(N)]
+    else:                                                      # one epoch without a length: TypeError (outside the statement)
+        m["cont"] = [rng.choice(SIZED) for _ in range(N)]
+        m["cont"][rng.randrange(N)] = rng.choice(UNSIZED)
+    r = rng.random()
+    if r >= 0.60:
+        m["share"] = "const" if r < 0.85 else "same"
+    return m
 
 
 def log_twin(m):
     f = lambda v: math.log(v + 1e-300)
-    return {"S": [list(r) for r in m["S"]], "P": [[[f(v) for v in c] for c in r] for r in m["P"]],
-            "Q": [[[f(v) for v in c] for c in r] for r in m["Q"]], "kind": "log"}
+    t = {"S": [list(r) for r in m["S"]], "P": [[[f(v) for v in c] for c in r] for r in m["P"]],
+         "Q": [[[f(v) for v in c] for c in r] for r in m["Q"]], "kind": "log"}
+    for k in ("cont", "share"):
+        if k in m:
+            t[k] = copy.deepcopy(m[k])
+    return t
 
 
 def gen_session(rng, big=False):
@@ -726,8 +928,11 @@ def gen_session(rng, big=False):
     L = rng.choice([1, 2, 2, 3, 3, 4])
     R = max(L, rng.choice([2, 2, 3]))
     YD = rng.choice([1, 2, 3, 3, 4, 6])
-    sflav = rng.choice(SFLAVS)
+    sflav = rng.choice(SFLAVS + ["trackpos"])
     case = {"kind": "sess", "N": N, "L": L, "R": R, "YD": YD, "sflav": sflav, "yflav": rng.choice(["int", "float"])}
+    r = rng.random()
+    if r < 0.12:
+        case["boolform"] = "int" if r < 0.07 else "npbool"
     models = []
     for _ in range(rng.choice([1, 2, 2, 3])):
         kind = rng.choice(["lik3", "lik8", "lik8", "likw", "likw", "likw", "lik01", "logint", "logdy", "logpm"])
@@ -783,6 +988,8 @@ def gen_session(rng, big=False):
                     b = rng.random() < 0.5
                     steps.append({"op": "log", "h": h, "log": b})
                     objs[h].update(actual=b, declared=b, sticky=False)
+                    if rng.random() < 0.3:
+                        steps.append({"op": "stat", "h": h, "b": rng.random() < 0.5})
                 elif r < 0.62:
                     cand = sorted(tfeats[cur_t])
                     if cand:
@@ -814,6 +1021,8 @@ def gen_session(rng, big=False):
             pool.append("hmm_cost")
         if rng.random() < 0.1:
             pool.append("idx")
+        if rng.random() < (0.3 if sflav in POSFLAVS else 0.06):      # the position itself as (part of) the observation
+            pool += rng.sample(["x", "y", "z"], rng.choice([1, 2, 3]))
         rng.shuffle(pool)
         names = pool[:k]
         r = rng.random()
@@ -826,7 +1035,7 @@ def gen_session(rng, big=False):
             modes += [1, 1]
         if len(names) >= 3:
             modes += [2, 2]
-        if sflav == "coords":
+        if sflav in POSFLAVS:
             modes += [5, 5]
             if len(names) >= 2:
                 modes += [3]
@@ -840,6 +1049,8 @@ def gen_session(rng, big=False):
         need = any(models[x]["kind"] == "log" for x in (o["Q"], o["P"]))
         if o["declared"]:
             logarg = rng.choice([None, None, False, True])
+        elif need and rng.random() < 0.05:
+            logarg = rng.choice([None, False])           # logarithms handed over as likelihoods: math.log of a negative number
         elif need:
             logarg = True
         elif o["sticky"]:
@@ -866,8 +1077,12 @@ def nontrivial(case):
 def describe(case):
     ne = sum(1 for s in case["steps"] if s["op"] == "est")
     ops = set(s["op"] for s in case["steps"])
+    kinds = sorted(set(c for m in case["models"] for c in conts_of(m, case["N"])))
     return {"kind": "sess", "T": case["N"], "maxS": max((len(r) for m in case["models"] for r in m["S"]), default=0),
-            "values": "sess " + case["sflav"], "via": "%d est%s%s" % (ne, " copy" if "copy" in ops else "", " edit" if "obs" in ops else "")}
+            "values": "sess " + case["sflav"], "via": "%d est%s%s" % (ne, " copy" if "copy" in ops else "", " edit" if "obs" in ops else ""),
+            "S returns": "+".join(kinds) if len(kinds) <= 2 else "%d kinds" % len(kinds),
+            "share": "+".join(sorted(set(m.get("share", "fresh") for m in case["models"]))),
+            "xyz obs": any(n in ("x", "y", "z") for s in case["steps"] if s["op"] == "est" for n in s["obs"])}
 
 
 def shrink(case):
@@ -877,12 +1092,25 @@ def shrink(case):
         c = dict(case, steps=steps[:i] + steps[i + 1:])
         if valid(c):
             yield c
-    # drop a model that is not referenced
+    # drop a model that is not referenced (the later ones are renumbered)
     used = set()
     for s in steps:
         for k in ("mS", "mQ", "mP", "m"):
             if k in s:
                 used.add(s[k])
+    for mi in range(len(case["models"]) - 1, -1, -1):
+        if mi not in used and len(case["models"]) > 1:
+            c = copy.deepcopy(case)
+            del c["models"][mi]
+            for s in c["steps"]:
+                for k in ("mS", "mQ", "mP", "m"):
+                    if k in s and s[k] > mi:
+                        s[k] -= 1
+            if valid(c):
+                yield c
+            break
+    if "boolform" in case:
+        yield {k: v for k, v in case.items() if k != "boolform"}
     # drop the last epoch
     N = case["N"]
     if N > 1:
@@ -890,6 +1118,8 @@ def shrink(case):
         c["N"] = N - 1
         for m in c["models"]:
             m["S"] = m["S"][:-1]; m["P"] = m["P"][:-1]; m["Q"] = m["Q"][:-1]
+            if isinstance(m.get("cont"), list):
+                m["cont"] = m["cont"][:-1]
         c["feats"] = [[n, v[:-1]] for n, v in c["feats"]]
         c["steps"] = [dict(s, vals=s["vals"][:-1]) if s["op"] == "mk" else s for s in c["steps"]
                       if not (s["op"] == "obs" and s["k"] >= N - 1)]
@@ -902,6 +1132,19 @@ def shrink(case):
                 for j in range(len(row)):
                     c = copy.deepcopy(case)
                     c["models"][mi]["S"][k] = row[:j] + row[j + 1:]
+                    yield c
+    # plain containers, nothing shared
+    for mi, m in enumerate(case["models"]):
+        if "cont" in m or "share" in m:
+            c = copy.deepcopy(case)
+            c["models"][mi].pop("cont", None); c["models"][mi].pop("share", None)
+            yield c
+            if "cont" in m and "share" in m:
+                c = copy.deepcopy(case); c["models"][mi].pop("share")
+                yield c
+            if "cont" in m and len(set(conts_of(m, case["N"]))) > 1:
+                for kind in sorted(set(conts_of(m, case["N"]))):
+                    c = copy.deepcopy(case); c["models"][mi]["cont"] = [kind] * case["N"]
                     yield c
     # plain flavours
     if case["sflav"] != "int" and not any(s.get("mode", 0) in (3, 4, 5) for s in steps if s["op"] == "est"):
